@@ -236,7 +236,30 @@ fn id_num(id: DatumId) -> usize {
 
 /// Emits the glue module text for one definition. `module` is the module name, `gen_file` the file
 /// name (inside OUT_DIR) holding the generated code.
-pub fn emit_glue(spec: &DefSpec, built: &Built, module: &str, gen_file: &str) -> String {
+/// Names of the data fields of `Record<n>AndUnpackedOut` as the generated code declares them.
+fn out_struct_fields(code: &str, n: usize) -> Option<Vec<String>> {
+    let head = format!("pub struct Record{}AndUnpackedOut<", n);
+    let start = code.find(&head)?;
+    let body_start = start + code[start..].find('{')? + 1;
+    let body_end = body_start + code[body_start..].find('}')?;
+    let mut out = vec![];
+    for line in code[body_start..body_end].lines() {
+        let l = line.trim();
+        if let Some(rest) = l.strip_prefix("pub ") {
+            if let Some((name, _)) = rest.split_once(':') {
+                if name.trim() != "record" {
+                    out.push(name.trim().to_owned());
+                }
+            }
+        }
+    }
+    Some(out)
+}
+
+/// `code` is the generated module: the fields a conversion hands back are taken from the struct
+/// the generator really emitted (the explorer compares them with the removed data at run time),
+/// so that a wrong set is a verdict of the run instead of a compile error of the glue.
+pub fn emit_glue(spec: &DefSpec, built: &Built, module: &str, gen_file: &str, code: &str) -> String {
     let def = &built.def;
     let ts = types();
     let n_data = def.datum_definitions().count();
@@ -393,8 +416,16 @@ pub fn emit_glue(spec: &DefSpec, built: &Built, module: &str, gen_file: &str) ->
         let nxt = &variants[k + 1];
         let n = k + 1;
         let mandatory_plus: Vec<usize> = nxt.plus.iter().copied().filter(|d| !uninit(*d)).collect();
-        let out_fields: String = nxt.minus.iter().map(|d| format!(", {}", fname(*d))).collect();
-        let out_push: String = nxt.minus.iter().map(|d| format!("out_push({}, {}.tok(), {}.id()); ", d, fname(*d), fname(*d))).collect();
+        // (datum id, field name) of what the emitted struct hands back
+        let handed_back: Vec<(usize, String)> = match out_struct_fields(code, n) {
+            Some(names) => names
+                .into_iter()
+                .filter_map(|name| (0..n_data).find(|d| fname(*d) == name && variants[k].data.contains(d)).map(|d| (d, name)))
+                .collect(),
+            None => nxt.minus.iter().map(|d| (*d, fname(*d))).collect(),
+        };
+        let out_fields: String = handed_back.iter().map(|(_, name)| format!(", {}", name)).collect();
+        let out_push: String = handed_back.iter().map(|(d, name)| format!("out_push({}, {}.tok(), {}.id()); ", d, name, name)).collect();
         writeln!(w, "                Rec::V{}(p) => Rec::V{}(p.convert(|from: CappedRecord{}<CAP>| -> CappedRecord{}<CAP> {{ match form {{", k, n, k, n).unwrap();
         writeln!(w, "                    Form::Full => CappedRecord{}::<CAP>::from((from, UnpackedRecordIn{} {{ {} }})),", n, n, lit_full(&nxt.plus, "plus", &nxt.plus)).unwrap();
         writeln!(w, "                    Form::Uninit => CappedRecord{}::<CAP>::from((from, UnpackedUninitRecordIn{} {{ {} }})),", n, n, lit_full(&mandatory_plus, "plus", &nxt.plus)).unwrap();
@@ -575,6 +606,10 @@ pub fn zoo() -> Vec<DefSpec> {
         (vec![step(&[], &[("Pod4", t)], 0), step(&[], &[("OwnBox", f), ("OwnZ", f)], 0), step(&[1], &[("OwnZ", f), ("Own24", f)], 0)], f),
         (vec![step(&[], &[("Own3", f), ("Own24", f)], 2), step(&[], &[("OwnZ", f), ("PodZ", t)], 0), step(&[0], &[("OwnZ4", f)], 0)], f),
         (vec![step(&[], &[("Pod4", t), ("Pod4", t), ("Pod8", t)], 0), step(&[0], &[("PodZ", t)], 0), step(&[], &[("PodZ", f)], 1)], f),
+        // a removed datum replaced by one of the same size and a stricter alignment
+        (vec![step(&[], &[("Pod1", t), ("Own1", f), ("Pod1", t)], 2), step(&[1], &[("Pod2", t)], 0)], f),
+        (vec![step(&[], &[("Pod4", t), ("Own8", f), ("Pod4", t)], 2), step(&[1], &[("OwnBox", f)], 0), step(&[], &[("Pod8", t)], 0)], f),
+        (vec![step(&[], &[("Own3", f), ("Own1", f), ("Own8", f)], 3), step(&[1, 2], &[("Pod2", f), ("Pod8", t)], 0)], f),
         // a zero-size datum is the most aligned datum of the record
         (vec![step(&[], &[("Own3", f), ("OwnZ4", f)], 0), step(&[0], &[("Pod1", t)], 0)], f),
         (vec![step(&[], &[("Pod1", t), ("Own1", f)], 0), step(&[], &[("OwnZ4", f)], 0), step(&[0], &[("Pod3", f)], 0)], f),
@@ -607,7 +642,7 @@ pub fn zoo() -> Vec<DefSpec> {
 /// The reduced family interpreted by Miri: every instrumented type, re-used bytes, a re-used
 /// name, zero-size data, odd sizes, an over-aligned type, a ghost, three strategies.
 pub fn miri_family() -> Vec<DefSpec> {
-    let keep = [1usize, 2, 3, 8, 13, 14, 16, 18, 20, 22, 26, 27, 28, 32];
+    let keep = [1usize, 2, 3, 8, 13, 14, 16, 18, 20, 22, 26, 27, 28, 31, 32, 35];
     let z = zoo();
     let mut v: Vec<DefSpec> = keep.iter().filter_map(|i| z.get(*i).cloned()).collect();
     v.push(z[z.len() - 4].clone()); // first ghost definition
